@@ -98,6 +98,13 @@ def families(tier: str) -> list[dict]:
                            exhaustive=False, num=3 if quick else 40,
                            spec_depth=5, save_args=(True,),
                            load_args=(True,)))
+    # a long-running job with callable intervals resumed into a fresh
+    # preconditioner (the step counter is far beyond the first steps)
+    cz = dict(base, method='eigen', prediv=False, F='int_1_2', I='int_2_1',
+              in_hook=True, accum=1, steps0=64)
+    fams.append(reffam.fam(cz, ['Train', 'Step', 'Save', 'Load'],
+                           8 if quick else 10, save_args=(True,),
+                           load_args=(True,)))
     mw = dict(base, method='eigen', prediv=False, F=1, I=4, in_hook=False,
               accum=1, model='mlp3')
     fams.append(reffam.fam(mw, ['Train', 'Step', 'Save', 'Load'], L,
